@@ -147,7 +147,7 @@ def check_alvec(o):
     v = _vecf(c["v"])
     a2 = a.from_vector(v)
     if type(a2) is not type(a):
-        bad.append(("from_vector changed the class", {}, None))
+        return [("from_vector changed the class", {"got": type(a2).__name__, "want": type(a).__name__}, None)]
     if not L.close(a2.h_matrix, M2, 1e-9):
         bad.append(("alignment from_vector matrix differs", {"got": a2.h_matrix, "want": M2}, None))
     if not L.close(a2.target.points, tgt2, 1e-9):
@@ -170,6 +170,8 @@ def check_alvec(o):
         tag = "Alignment%s(%s): " % (cls, ", ".join("%s=%r" % kv for kv in sorted(kw.items())))
         if type(b2) is not type(b) or not L.close(b2.h_matrix, M2, 1e-9):
             bad.append((tag + "from_vector(v) is not the transform v describes", {"got": b2.h_matrix, "want": M2}, None))
+            if type(b2) is not type(b):
+                continue
         elif not L.close(b2.as_vector(), v, 1e-9):
             bad.append((tag + "from_vector(v).as_vector() != v", {"got": b2.as_vector(), "want": v}, None))
         if not L.close(b2.target.points, b2.aligned_source().points, 1e-9):
